@@ -25,9 +25,16 @@ type FmtPart struct {
 	Width int
 }
 
+// StrCase: one guarded formatted alternative (finite choice of literals combined with numeric fields)
+type StrCase struct {
+	Cond  *Term
+	Parts []FmtPart
+}
+
 type StrV struct {
 	Alts   []StrAlt  // finite alternatives (conditions mutually exclusive and exhaustive on the current path)
 	Fmt    []FmtPart // fixed-width numeric string
+	Cases  []StrCase // guarded formatted alternatives (e.g. TABLE[i] + Sprintf("%d", n))
 	Opaque bool
 	Tag    string // provenance for opaque strings
 }
@@ -111,7 +118,7 @@ func unsup(format string, a ...interface{}) {
 func litStr(s string) *StrV { return &StrV{Alts: []StrAlt{{tTrue, s}}} }
 
 func (s *StrV) isLit() (string, bool) {
-	if len(s.Alts) == 1 && s.Fmt == nil && !s.Opaque {
+	if len(s.Alts) == 1 && s.Fmt == nil && !s.Opaque && s.Cases == nil {
 		return s.Alts[0].S, true
 	}
 	return "", false
@@ -305,7 +312,7 @@ func mergeStr(c *Term, x, y *StrV) *StrV {
 	if x == y {
 		return x
 	}
-	if x.Opaque || y.Opaque {
+	if x.Opaque || y.Opaque || x.Cases != nil || y.Cases != nil {
 		return &StrV{Opaque: true, Tag: "merge"}
 	}
 	if x.Fmt != nil || y.Fmt != nil {
